@@ -191,6 +191,18 @@ def check(ctx):
                     # canonical delivery: int when integral, else reduced fraction
                     if (want.denominator == 1) != (type(v) is int):
                         ctx.violation("agg-canon:" + text, text, "canonical form of %s" % want, repr(v), how)
+        if cls in ("exact", "mixed") and elems and fn in ("sum", "prod", "mean"):
+            # the aggregate is the language's own operator folded over the elements: same value AND same kind
+            opc = "+" if fn in ("sum", "mean") else "*"
+            ftext = "(" * (len(elems) - 1) + elems[0] + "".join(" %s %s)" % (opc, e) for e in elems[1:])
+            if fn == "mean":
+                ftext = "(%s) / %d" % (ftext, len(elems))
+            kf, vf = R.value(ftext)
+            ctx.count("fold:" + text, bucket="fold-consistency")
+            same = (kf == k) and (kf != "ok" or (num_canon(vf) == num_canon(v)) or
+                                  (isinstance(v, float) and isinstance(vf, float) and abs(v - vf) <= 1e-12 * max(1.0, abs(v)) and fn == "prod"))
+            if not same:
+                ctx.violation("agg-fold:" + text, text, "%s = %s" % (ftext, real_ans(kf, vf)), real_ans(k, v), how)
         if cls == "exact":
             cases.append(("arr agg %s %s" % (fn, " ".join(num_canon(x) for x in va.contents)), real_ans(k, v), text))
             if len(ctx.cov["samples"]) < 6:
